@@ -29,8 +29,8 @@ def family(name, ctx, prefix="", entries=None):
     if "|" in prefix:
         # the completer splits the word at `|` (so that `ls|wc<TAB>` completes a command name)
         return "typed-prefix-contains-a-pipe-character"
-    if " ~" in prefix:
-        return "typed-prefix-has-a-blank-followed-by-tilde"
+    # (two families that lived here - a blank followed by ~ in the typed prefix, a quoted word starting with ~ - were the path
+    # completer applying its home-directory expansion to protected text; repaired, so such a failure is reported as it comes)
     if prefix.endswith("$"):
         # the line then ends in `$` (escaped, or inside single quotes), which the dispatcher takes for the start of a
         # variable name whatever protects it
@@ -64,13 +64,9 @@ def family(name, ctx, prefix="", entries=None):
             return "double-quoted:dollar-reference-in-name-is-expanded"
         if bq_pair:
             return "double-quoted:backquote-pair-in-name-is-run"
-        if name.startswith("~"):
-            return "quoted:leading-tilde-is-taken-for-the-home-directory-by-the-completer"
         return None
     if "'" in name:
         return "single-quoted:name-contains-a-single-quote"
-    if name.startswith("~"):
-        return "quoted:leading-tilde-is-taken-for-the-home-directory-by-the-completer"
     return None
 
 
